@@ -8,19 +8,35 @@ Reads the working tree of /repo twice:
       - the cast names compared with `org_calls` in `on_func_call`,
       - the quote list of `_allow_string`.
     Anything that does not have the expected shape raises (the tie is then broken, never silently passed).
+  * pins the text of every method whose CONTROL FLOW Model/Evaluator.lean transcribes by hand (`MODELLED`; the two pure ladders `_calc` /
+    `_bitwise` and the six one-line chain handlers are generated / shape-checked instead): the normalised source (no docstrings, comments,
+    layout) must equal `c17_modelled_source.json`, and the set of `on_*` handlers must be the set the model has a case for. After
+    re-auditing the model against a changed source: `python -m translate.gen_eval_ops --audit`.
 
 Output: lean/Tranp/Generated/EvalOps.lean (rewritten only when the content changes).
 """
 from __future__ import annotations
 
 import ast
+import copy
+import difflib
+import json
 import os
+import sys
 from typing import Any
 
 from harness.common import GENERATED_DIR, REPO, write_if_changed
 
 SOURCE = 'rogw/tranp/implements/transpiler/evaluator.py'
 TARGET = os.path.join(GENERATED_DIR, 'EvalOps.lean')
+
+AUDITED = os.path.join(os.path.dirname(os.path.abspath(__file__)), 'c17_modelled_source.json')
+# methods whose control flow the Lean model follows line by line (execImpl / step / onFuncCall / onInteger / onFloat / onFactor / allowString / cat / catSafe)
+MODELLED = ['__init__', '_build_procedure', 'exec', '_op_bin_each', '_allow_string', '_joins_escape', '_cat', 'on_argument', 'on_argument_label',
+	'on_var', 'on_relay', 'on_func_call', 'on_integer', 'on_float', 'on_string', 'on_factor', 'on_group', 'on_terminal', 'on_empty', 'on_fallback']
+# every handler the model has a case for (the six chain handlers through `chainHandlers`)
+MODELLED_HANDLERS = ['on_and_bitwise', 'on_argument', 'on_argument_label', 'on_empty', 'on_factor', 'on_fallback', 'on_float', 'on_func_call', 'on_group',
+	'on_integer', 'on_or_bitwise', 'on_relay', 'on_shift_bitwise', 'on_string', 'on_sum', 'on_term', 'on_terminal', 'on_var', 'on_xor_bitwise']
 
 BINOPS = {
 	ast.Add: 'add', ast.Sub: 'sub', ast.Mult: 'mult', ast.Div: 'div', ast.Mod: 'mod',
@@ -161,6 +177,48 @@ def _join_assert(fn: ast.FunctionDef) -> str:
 	raise Unrecognised('_op_bin_each: `assert …` followed by `left = self._cat(left, right)` not found')
 
 
+def _strip_doc(fn: Any) -> Any:
+	body = getattr(fn, 'body', [])
+	if body and isinstance(body[0], ast.Expr) and isinstance(body[0].value, ast.Constant) and isinstance(body[0].value.value, str):
+		fn.body = body[1:] or [ast.Pass()]
+	for child in ast.iter_child_nodes(fn):
+		if isinstance(child, (ast.FunctionDef, ast.ClassDef)):
+			_strip_doc(child)
+	return fn
+
+
+def modelled_sources() -> dict[str, str]:
+	"""Normalised source (no docstrings / comments / layout) of the hand-transcribed methods."""
+	with open(os.path.join(REPO, SOURCE), encoding='utf-8') as f:
+		tree = ast.parse(f.read())
+	cls = next((n for n in tree.body if isinstance(n, ast.ClassDef) and n.name == 'LiteralEvaluator'), None)
+	if cls is None:
+		raise Unrecognised('class LiteralEvaluator not found')
+	fns = {n.name: n for n in cls.body if isinstance(n, ast.FunctionDef)}
+	out: dict[str, str] = {}
+	for name in MODELLED:
+		if name not in fns:
+			raise Unrecognised(f'modelled method {name} is missing')
+		out[name] = ast.unparse(_strip_doc(copy.deepcopy(fns[name])))
+	return out
+
+
+def check_audited(handlers: list[str]) -> int:
+	if sorted(handlers) != sorted(MODELLED_HANDLERS):
+		raise Unrecognised(f'the handlers of LiteralEvaluator changed: not modelled {sorted(set(handlers) - set(MODELLED_HANDLERS))}, gone {sorted(set(MODELLED_HANDLERS) - set(handlers))}')
+	if not os.path.exists(AUDITED):
+		raise Unrecognised(f'{AUDITED} is missing (python -m translate.gen_eval_ops --audit after auditing the model)')
+	with open(AUDITED, encoding='utf-8') as f:
+		audited = json.load(f)
+	current = modelled_sources()
+	audited = {k: v for k, v in audited.items() if '.' not in k}  # `Py2Cpp.on_relay[value]` is checked by gen_literalize
+	for key in sorted(set(audited) | set(current)):
+		if audited.get(key) != current.get(key):
+			diff = '\n'.join(difflib.unified_diff((audited.get(key) or '').splitlines(), (current.get(key) or '').splitlines(), 'modelled', 'source', lineterm='', n=1))
+			raise Unrecognised(f'LiteralEvaluator.{key}: the source differs from the text Model/Evaluator.lean was written against:\n{diff}')
+	return len(current)
+
+
 def read_joins_patterns() -> tuple[str, str]:
 	"""Only the two patterns of `_joins_escape` (for the `unescape` stream); raises like `read_tables` on another shape."""
 	with open(os.path.join(REPO, SOURCE), encoding='utf-8') as f:
@@ -270,11 +328,24 @@ end Tranp.Generated.EvalOps
 
 def generate() -> list[dict[str, Any]]:
 	t = read_tables()
-	changed = write_if_changed(TARGET, render(t))
+	changed = write_if_changed(TARGET, render(t))   # the tables are written first: the model follows them even when the pinned text changed
+	pinned = check_audited(t['handlers'])
 	return [{
 		'file': os.path.relpath(TARGET, os.path.dirname(GENERATED_DIR)),
 		'source': SOURCE,
 		'entries': len(t['arithmetic']) + len(t['bitwise']) + len(t['allow']) + len(t['calc']) + len(t['bit']) + len(t['chain_handlers']) + len(t['casts']) + len(t['quotes']) + len(t['long_quotes']) + 2 + 3 + len(t['handlers']),
 		'changed': changed,
+		'pinned_methods': pinned,
 		'tables': {k: v for k, v in t.items()},
 	}]
+
+
+if __name__ == '__main__':
+	if '--audit' in sys.argv:
+		from translate import gen_literalize
+		pinned_now = {**modelled_sources(), gen_literalize.BRANCH_KEY: gen_literalize.value_branch_source()}
+		with open(AUDITED, 'w', encoding='utf-8') as f:
+			json.dump(pinned_now, f, indent=1, sort_keys=True)
+		print(f'audited {AUDITED}')
+	else:
+		print(generate())
